@@ -3120,7 +3120,14 @@ class FuncProcessLines(ValueFunc):
                 args = Args(pos).addArg(callback.getArgNames()[0], line)
                 return callback.execute(args, env, pos)
 
-            return ValueInt(inp.process(cb))
+            try:
+                return ValueInt(inp.process(cb))
+            except CklRuntimeError:
+                raise
+            except Exception:
+                raise CklRuntimeError(
+                    ValueString("ERROR"), "Cannot read from input", pos
+                )
         elif inparg.isList():
             lst = inparg.asList().value
             for element in lst:
